@@ -25,7 +25,10 @@ def run_one(name):
                 return name, pid, "PATCH-DOES-NOT-APPLY", (r.stdout + r.stderr)[-200:], 0
         t0 = time.time()
         env = dict(os.environ, VF_REPO=dst, VERIF_SEED="1")
-        r = subprocess.run(["python3-vt", "-m", "vf", "check", pid, "--tier", "quick"], env=env, capture_output=True, text=True, cwd=HERE)
+        try:
+            r = subprocess.run(["python3-vt", "-m", "vf", "check", pid, "--tier", "quick"], env=env, capture_output=True, text=True, cwd=HERE, timeout=1500)
+        except subprocess.TimeoutExpired:
+            return name, pid, "TIMEOUT", "check did not finish within 1500 s", 1500
         dt = time.time() - t0
         lines = [l for l in r.stdout.splitlines() if l.startswith("VIOLATION")]
         tail = (r.stdout + r.stderr).strip().splitlines()[-1][:200] if (r.stdout + r.stderr).strip() else ""
